@@ -158,6 +158,8 @@ def pin_environment_and_reexec(argv=None):
         return
     env = dict(os.environ)
     env.update(PINNED_ENV)
+    if os.environ.get("XDIS_VERIF_HASHSEED"):  # self-test only: prove independence from the hash seed
+        env["PYTHONHASHSEED"] = os.environ["XDIS_VERIF_HASHSEED"]
     env[PIN_MARK] = "1"
     env["XDIS_VERIF_ASLR_OFF"] = "1" if _disable_aslr() else "0"
     pp = [REPO_DIR, VERIF_DIR]
@@ -171,6 +173,8 @@ def pin_environment_and_reexec(argv=None):
 def child_env(extra=None):
     env = dict(os.environ)
     env.update(PINNED_ENV)
+    if os.environ.get("XDIS_VERIF_HASHSEED"):
+        env["PYTHONHASHSEED"] = os.environ["XDIS_VERIF_HASHSEED"]
     env[PIN_MARK] = "1"
     env["PYTHONPATH"] = os.pathsep.join([REPO_DIR, VERIF_DIR])
     if extra:
@@ -186,6 +190,30 @@ def verify_xdis_origin():
     if f != want:
         raise HarnessError("xdis imported from %s, expected %s" % (f, want))
     return f
+
+
+class FixedHeadroom:
+    """Give the code under test the same remaining recursion depth wherever the harness
+    happens to call it from, so that the depth at which a nesting bomb hits RecursionError
+    (and hence step counts and error texts) is a function of the input only."""
+
+    def __init__(self, headroom=950):
+        self.headroom = headroom
+        self.saved = None
+
+    def __enter__(self):
+        f = sys._getframe(1)
+        n = 0
+        while f is not None:
+            n += 1
+            f = f.f_back
+        self.saved = sys.getrecursionlimit()
+        sys.setrecursionlimit(n + self.headroom)
+        return self
+
+    def __exit__(self, *a):
+        sys.setrecursionlimit(self.saved)
+        return False
 
 
 # ------------------------------------------------------------------------- scratch
